@@ -311,7 +311,15 @@ func VerifH_config_sections() {
 		case 2:
 			tree[s.sec+".interface"] = "eth0"
 		case 3:
-			tree[s.sec+".listen"] = "%eth0"
+			// listen in each of its forms: a scalar, a one-element list, a two-element list
+			switch vnd.Pick("bothform", 0, 2) {
+			case 0:
+				tree[s.sec+".listen"] = "%eth0"
+			case 1:
+				tree[s.sec+".listen"] = []interface{}{"%eth0"}
+			case 2:
+				tree[s.sec+".listen"] = []interface{}{"%eth0", ":1"}
+			}
 			tree[s.sec+".interface"] = "eth0"
 			bad = true
 		}
